@@ -74,6 +74,15 @@ REG.external[Q + '_sendMsgThroughSocket'] = x_sendMsgThroughSocket
 
 
 def x_hh_update(ex, args, kwargs, st, fr, node):
+    if st.ghost.get('$sendmsg_contract') is None:
+        # not under the _sendMsg contract: behave as if this model were not registered
+        from pyvc import source
+        qual = 'tlslite/handshakehashes.py:HandshakeHashes.update'
+        fs = source.load(qual)
+        if not hasattr(ex, 'spec') and ex.reg.may_inline(qual, fs, fr):
+            ex.inlined.add(qual)
+            return ex.inline(fs, args, kwargs, st, fr, node)
+        return ex.opaque_call(qual, args, st)
     return [Outcome('normal', st, VNone())]
 
 
@@ -91,6 +100,7 @@ def _self_t():
 def _setup(field):
     def setup(ex, st, ns):
         s, m = st.env['self'], st.env['msg']
+        st.ghost['$sendmsg_contract'] = VBool(z3.BoolVal(True))
         st.heap[(s.oid, 'g_out')] = S.empty()
         st.heap[(s.oid, 'g_n')] = VInt(0)
         st.heap[(s.oid, 'g_first_len')] = VInt(-1)
@@ -164,3 +174,5 @@ REG.note('C01', 'trusted', '_sendMsg: HandshakeHashes.update(buf) does not mutat
 REG.note('C01', 'assumptions', '_sendMsg message variants verified: ApplicationData (payload in .bytes, splitFirstByte) and '
                                'Message (payload in .data); other message classes reach the loop only through their write() '
                                'result, which is covered by the Message variant as far as fragmentation is concerned')
+
+REG.xchecks.append({'prop': 'C01', 'module': 'specs.posthandshake', 'name': 'sendmsg_fragments', 'function': Q + '_sendMsg'})
